@@ -12,6 +12,9 @@
 (*   [k |-> "vec", items]             length-prefixed sequence             *)
 (*   [k |-> "ksk", keys]              parms id + vec of vec of ct          *)
 (*   [k |-> "poly", n, limits]        single polynomial                    *)
+(*   [k |-> "cat", items]             plain concatenation: an object of    *)
+(*                                    the RNS-plaintext wrapper = its       *)
+(*                                    components, one per plain modulus     *)
 (* limits[j] = ceil(bits(q_j)/8) is the byte width of a residue.           *)
 (*                                                                         *)
 (* Part 2: a writer accepting at most cap bytes per call and optionally    *)
@@ -58,6 +61,7 @@ Layout(sh) ==
     [] sh.k = "ksk"   -> ParmsId \o <<8>> \o Concat([i \in 1..Len(sh.keys) |->
                             <<8>> \o Concat([j \in 1..Len(sh.keys[i]) |-> Layout(sh.keys[i][j])])])
     [] sh.k = "poly"  -> ParmsId \o Residues(sh.limits, sh.n)
+    [] sh.k = "cat"   -> Concat([i \in 1..Len(sh.items) |-> Layout(sh.items[i])])
 
 Size(sh) == SumSeq(Layout(sh))
 
